@@ -76,6 +76,24 @@ def gen_cases(rng, tier):
     ys = [round(rng.uniform(-5.0, 5.0), 4) for _ in xs]
     cases.append({"kind": "reader", "x": xs, "y": ys, "seed": rng.randrange(1 << 30), "final_newline": bool(k % 2), "crlf": False, "shuffle": False,
                   "order": ["text", "descending", "one_swap", "last_first", "first_last"][k % 5], "comments": k % 4 == 0, "spellings": False})
+  # abscissae far from the origin on a fine step (x = 1e6 + i*1e-3: 'm*x + c' loses what the step resolves), y values next
+  # to the largest double (an intercept can overflow although the line between the two rows stays finite)
+  for k in range(12 if tier == "quick" else 120):
+    nrows = rng.choice([3, 5, 9])
+    if k % 3 < 2:
+      x0, h = rng.choice([(1e6, 1e-3), (1e4, 1e-3), (-1e5, 1e-2), (1e7, 1e-2), (5e5, 1e-4)])
+      xs = [x0 + i * h for i in range(nrows)]
+      ys = [round(rng.uniform(0.5, 5.0), 4) for _ in xs]
+      mag = "x_offset_%g_step_%g" % (x0, h)
+    else:
+      xs = [float(i + 2) for i in range(nrows)]
+      ys = [rng.choice([1e308, -1e308, 1.5e308, 0.0, 3e307, -8e307]) for _ in xs]
+      mag = "y_near_largest_double"
+    cases.append({"kind": "reader", "x": xs, "y": ys, "seed": rng.randrange(1 << 30), "final_newline": bool(k % 2), "crlf": False, "shuffle": k % 4 == 0,
+                  "comments": False, "spellings": False, "magnitude": mag})
+  # files without a single data row (empty, comments and blank lines only): nothing is tabulated, so every x is outside
+  for k in range(4 if tier == "quick" else 12):
+    cases.append({"kind": "reader_empty", "text": ["", "# nothing here\n", "\n\n   \n", "# a\n\n# b", "#\r\n\r\n"][k % 5], "seed": rng.randrange(1 << 30)})
   # data of extreme magnitude (x and y scaled by powers of ten up to 1e+-160; each harmless alone): the interpolant between
   # two rows is still the straight line between them
   for k, (ex, ey) in enumerate([(160, 160), (-170, -170), (156, 158), (-166, -168), (150, 150), (160, 140), (-150, -150), (-160, -140), (150, -150), (-150, 150), (100, 200), (-100, -200), (0, 300), (0, -300)]):
@@ -279,6 +297,28 @@ def run_reader(case, ctx):
   ctx.nontrivial(len(rows) >= 2)
 
 
+def run_reader_empty(case, ctx):
+  import atsim.potentials as ap
+  ctx.cls("reader_file_without_rows")
+  try:
+    f = ap.TableReader(io.StringIO(case["text"]))
+    vals = [f(q) for q in (0.0, 1.0, -3.5, 1e9)]
+    ctx.count("reader_points", len(vals))
+    out = io.StringIO()
+    ap.plotToFile(out, 0.0, 2.0, f, 4)
+    rowsw = [l.split() for l in out.getvalue().splitlines() if l.strip()]
+    vals += [float(r_[1]) for r_ in rowsw]
+    ctx.count("plot_rows", len(rowsw))
+  except Exception as e:
+    et, fn = exc_sig(e)
+    ctx.violation("reader_exception", "TableReader over a file without data rows: %s %s (0 outside the tabulated range - which is everywhere - is expected)" % (et, e), what="reader_exception", exc=et, final_newline="empty")
+    return
+  if any(v != 0.0 for v in vals):
+    ctx.violation("reader_outside", "TableReader over a file without data rows returns %r" % (vals,), what="reader_outside")
+    return
+  ctx.nontrivial(True)
+
+
 def run_plot(case, ctx):
   import os
   import tempfile
@@ -339,4 +379,4 @@ def run_plot(case, ctx):
 
 def run_case(case, ctx):
   ctx.cls("kind:" + case["kind"])
-  return {"table": run_table, "reader": run_reader, "plot": run_plot}[case["kind"]](case, ctx)
+  return {"table": run_table, "reader": run_reader, "plot": run_plot, "reader_empty": run_reader_empty}[case["kind"]](case, ctx)
